@@ -614,3 +614,70 @@ func OrderConflicts(es []OrderEdge) [][2]OrderEdge {
 	}
 	return out
 }
+
+// LockLeak: a Return reached with a lock that fn acquired itself still held.
+type LockLeak struct {
+	Ret *ssa.Return
+	IDs []string
+}
+
+// Leaks reports the returns of fn at which a lock acquired by fn is surely
+// still held, is not released by a defer of fn and was not handed over to a
+// goroutine started by fn.
+func (la *LockAn) Leaks(fn *ssa.Function) []LockLeak {
+	r := la.Result(fn)
+	handed := map[string]bool{}
+	AllInstrs(fn, func(ins ssa.Instruction) {
+		if g, ok := ins.(*ssa.Go); ok {
+			cal := CalleeFn(&g.Call)
+			if cal == nil {
+				cal = FuncOfValue(firstOrigin(g.Call.Value))
+			}
+			if cal != nil {
+				for id := range la.releasesOf(cal) {
+					handed[id] = true
+				}
+			}
+		}
+	})
+	var out []LockLeak
+	for _, ret := range Returns(fn) {
+		var ids []string
+		for id := range r.Before[ret] {
+			if _, atEntry := r.Entry[id]; atEntry {
+				continue
+			}
+			if len(r.DeferredUnlock[id]) > 0 || handed[id] {
+				continue
+			}
+			ids = append(ids, id)
+		}
+		if len(ids) > 0 {
+			sort.Strings(ids)
+			out = append(out, LockLeak{ret, ids})
+		}
+	}
+	return out
+}
+
+// ReportLeaks adds a LOCK-RELEASED-ON-EVERY-EXIT obligation for every function of the package.
+func (la *LockAn) ReportLeaks(c *Check, id string, funcs []*ssa.Function) {
+	n := 0
+	for _, fn := range funcs {
+		leaks := la.Leaks(fn)
+		for _, l := range leaks {
+			c.Report(false, id, "LOCK-RELEASED-ON-EVERY-EXIT", fn, l.Ret.Pos(), "return holding "+strings.Join(l.IDs, ","), "a lock acquired by this function is still held at this return (every later caller blocks forever)")
+		}
+		has := false
+		for _, cl := range CallsIn(fn) {
+			if op, ok := la.opOf(cl); ok && (op.mode == 'W' || op.mode == 'R') {
+				has = true
+			}
+		}
+		if has {
+			n++
+		}
+	}
+	c.Report(true, id, "LOCK-BALANCE-SCANNED", nil, token.NoPos, "package scan", "functions that acquire locks were scanned for returns with an own lock still held")
+	c.Floor(id, "functions acquiring locks", n, 1)
+}
